@@ -11,7 +11,7 @@
    of tools/c01.py; that part is testing, not proof (see evidence.unproved_clauses). *)
 From Coq Require Import List ZArith NArith Bool.
 From SC.gen Require Import SevTable.
-From SC Require P21Str P21Scan P21Skip P21Skip_Proofs.
+From SC Require P21Str P21Sep P21Skip P21Skip_Proofs.
 From SC Require Import P21Lex P21Lex_Proofs P21Syntax P21Syntax_Proofs.
 Import ListNotations.
 Local Open Scope Z_scope.
@@ -57,8 +57,8 @@ Print Assumptions c01_refs_shift.
    text that lacks the closing mark) and other characters a record is made of, it ends at the first semicolon after
    it and nothing of what follows is consumed; a record that is never closed is never taken for a complete one *)
 Theorem c01_record_ends_at_its_semicolon : forall ts rest,
-  P21Skip.stoks_ok ts (P21Scan.SEMI :: rest) = true ->
-  P21Skip.skip_inst (P21Skip.srender ts ++ P21Scan.SEMI :: rest) = Some rest.
+  P21Skip.stoks_ok ts (P21Sep.SEMI :: rest) = true ->
+  P21Skip.skip_inst (P21Skip.srender ts ++ P21Sep.SEMI :: rest) = Some rest.
 Proof. exact P21Skip_Proofs.skip_instance_wellformed. Qed.
 Print Assumptions c01_record_ends_at_its_semicolon.
 
@@ -70,8 +70,8 @@ Print Assumptions c01_unterminated_record_reported.
 (* between two tokens (src/clstepcore/read_func.cc ReadTokenSeparator / ReadComment): any run of white space and comments -
    any number of them, of any length, with any text that lacks the closing mark - is skipped, and nothing of the token after it *)
 Theorem c01_token_separator_skipped : forall s c rest,
-  P21Scan.seps_ok s = true -> is_space c = false -> N.eqb c P21Scan.SLASH = false -> N.eqb c P21Skip.BSLASH = false ->
-  P21Skip.token_separator (P21Scan.seps_text s ++ c :: rest) = c :: rest.
+  P21Sep.seps_ok s = true -> is_space c = false -> N.eqb c P21Sep.SLASH = false -> N.eqb c P21Skip.BSLASH = false ->
+  P21Skip.token_separator (P21Sep.seps_text s ++ c :: rest) = c :: rest.
 Proof. exact P21Skip_Proofs.token_separator_skips. Qed.
 Print Assumptions c01_token_separator_skipped.
 
@@ -84,8 +84,8 @@ Proof. vm_compute. split; reflexivity. Qed.
 Example c01_skip_example :
   let ts := [P21Skip.SChr 65%N; P21Skip.SChr 40%N; P21Skip.SStr [P21Str.Plain 120%N; P21Str.Plain 59%N; P21Str.Apos; P21Str.Page 39%N];
              P21Skip.SChr 44%N; P21Skip.SCmt [32; 59; 32; 39; 42; 32]%N; P21Skip.SChr 32%N; P21Skip.SChr 35%N; P21Skip.SChr 49%N; P21Skip.SChr 41%N; P21Skip.SChr 32%N] in
-  P21Skip.stoks_ok ts (P21Scan.SEMI :: [35; 50]%N) = true /\
-  P21Skip.skip_inst (P21Skip.srender ts ++ P21Scan.SEMI :: [35; 50]%N) = Some [35; 50]%N.
+  P21Skip.stoks_ok ts (P21Sep.SEMI :: [35; 50]%N) = true /\
+  P21Skip.skip_inst (P21Skip.srender ts ++ P21Sep.SEMI :: [35; 50]%N) = Some [35; 50]%N.
 Proof. vm_compute. split; reflexivity. Qed.
 
 (* non-vacuity *)
